@@ -1573,3 +1573,56 @@ mut("x-c06-flags-form-stuck-not-reported", "C06", "src/parser/request.rs",
     """        Yield { done: finished || stuck, output: &self.output }""",
     """        Yield { done: finished, output: &self.output }""",
     "R6.2/parse", "a stuck parser is latched but the call does not report done (flag form of y1-r8)", base="y1-r8")
+
+# ---- sweep z (performance-minded refactorings) ----------------------------------------------------------------------------------------
+mut("x-c17-branchless-padding-wrong-modulus", "C17", "src/protocol/mod.rs",
+    """        self.padding_length = (content_length.wrapping_neg() % 8) as u8;""",
+    """        self.padding_length = (content_length.wrapping_neg() % 16) as u8;""",
+    "R17.6/set_lengths", "the branchless padding formula with the wrong modulus pads up to 15 bytes", base="z5-r6")
+mut("x-c17-branchless-padding-not-negated", "C17", "src/protocol/mod.rs",
+    """        self.padding_length = (content_length.wrapping_neg() % 8) as u8;""",
+    """        self.padding_length = (content_length % 8) as u8;""",
+    "R17.6/set_lengths", "the padding is the remainder itself instead of its complement", base="z5-r6")
+mut("x-c16-data-len-measured-after-first-read", "C16", "src/protocol/nv.rs",
+    """        let data_len = cur.len();
+        let name_len = VarInt::read(&mut cur).ok()?.try_into().ok()?;""",
+    """        let name_len = VarInt::read(&mut cur).ok()?.try_into().ok()?;
+        let data_len = cur.len();""",
+    "R16.2/next", "the reference length is taken after the first prefix was read: head_len misses that prefix", base="z5-r1")
+mut("x-c06-drained-exit-reports-nothing-consumed", "C06", "src/parser/request.rs",
+    """            // No complete pair to extract and no partial pair to carry over
+            return len;""",
+    """            // No complete pair to extract and no partial pair to carry over
+            return 0;""",
+    "R6.5/parse_stream", "the early exit for an empty remainder reports nothing consumed although parse_buffered consumed the slice", base="z1-r4")
+mut("x-c10-orig-len-from-other-local", "C10", "src/async_io/mod.rs",
+    """            this.orig_len = record_len;""",
+    """            this.orig_len = u16::MAX;""",
+    "R10.3/poll_write/orig_len-init", "orig_len is not the length the record was started with", base="z3-r2")
+
+# ---- round k ---------------------------------------------------------------------------------------------------------------------------
+mut("c14-pending-without-registration", "C14", "src/async_io/util.rs",
+    """        // Weak::upgrade returns None iff all TaskTokens have been dropped
+        match self.0.upgrade() {""",
+    """        if self.0.strong_count() > 1 {
+            // more than one task left: the last one is still far away
+            return Poll::Pending;
+        }
+        // Weak::upgrade returns None iff all TaskTokens have been dropped
+        match self.0.upgrade() {""",
+    "R14.2/pending-registers-waker", "a Pending return that does not register the current waker (seed C14-k)")
+mut("c09-read-polled-before-flush", "C09", "src/async_io/mod.rs",
+    """            ready!(Pin::new(&mut *this).poll_output(cx))?;
+            this.parser.compress();
+            let buf = this.parser.input_buffer();
+            read = ready!(Pin::new(&mut this.input).poll_read(cx, buf))?;""",
+    """            this.parser.compress();
+            let buf = this.parser.input_buffer();
+            let input = Pin::new(&mut this.input).poll_read(cx, buf);
+            ready!(Pin::new(&mut *this).poll_output(cx))?;
+            read = ready!(input)?;""",
+    "R9.7/", "the transport is polled first and its result looked at only after the flush: a Pending flush loses a ready read (seed C07-k)")
+mut("x-c17-lazy-limit-from-buffer-size", "C17", "src/protocol/vars.rs",
+    """                    max_conns.get_or_insert_with(|| config.max_conns.to_compact_string())""",
+    """                    max_conns.get_or_insert_with(|| config.buffer_size.to_compact_string())""",
+    "R17.5/write_response/values", "the lazily formatted limit is the buffer size, not max_conns", base="z5-r5")
